@@ -19,6 +19,9 @@ from harness.tracecheck import validate_traces
 
 SD = SPEC / "writers"
 DESIGN_REF = "DESIGN.md section 7 (C34)"
+# short TLC runs are dominated by JVM warm-up: C1-only JIT and two GC threads halve their cost (not used for the big thorough runs)
+FAST = ["-XX:TieredStopAtLevel=1", "-XX:ParallelGCThreads=2"]
+FAST_ENV = {"JDK_JAVA_OPTIONS": " ".join(FAST)}
 KF_SIG = "jsonl-append-to-unterminated-file"
 OTHER_NAMES = ["descriptor", "event", "event_page", "datum", "resource", "datum_page", "stream_resource", "stream_datum"]
 
@@ -184,7 +187,7 @@ def key_of(kind, pre, names):
 
 def run(ctx):
     # 1. exhaustive model checking (writers as found with the finding exempted, and repaired) + replay generation
-    res = run_tlc("DocWriters", "DocWriters_small.cfg" if ctx.quick else "DocWriters_large.cfg", spec_dir=SD, tag="C34", timeout=3000)
+    res = run_tlc("DocWriters", "DocWriters_small.cfg" if ctx.quick else "DocWriters_large.cfg", spec_dir=SD, tag="C34", timeout=3000, java_opts=FAST if ctx.quick else None)
     ctx.add_tlc(res, "DocWriters exhaustive + replay generation")
     if not res.ok:
         st = res.trace[-1][1] if res.trace else {}
@@ -253,7 +256,7 @@ def run(ctx):
             ctx.machinery(f"pre-existing file {pre} was parsed as {pre_seen}")
         traces.append({"w": kind, "pre": pre, "ev": evs})
         ctx.case(key_of(kind, pre, names), pre["shape"] != "absent" or names.count("start") > 1)
-    v = validate_traces("DocWritersTrace", "DocWritersTrace.cfg", traces, SD, ctx.out, tag="C34t", timeout=3000)
+    v = validate_traces("DocWritersTrace", "DocWritersTrace.cfg", traces, SD, ctx.out, tag="C34t", timeout=3000, env=FAST_ENV)
     ctx.add_tlc(v.res, "DocWritersTrace")
     ctx.traces(len(traces) - len(v.rejected) - (1 if v.invariant else 0))
     for idx, upto in v.rejected.items():
